@@ -21,16 +21,25 @@ func jobsFor(prop, tier string) []*Job {
 	case "C01":
 		nmax, wmax := 3, 4
 		if thorough {
-			nmax, wmax = 4, 6
+			nmax, wmax = 4, 5
 		}
 		for n := 2; n <= nmax; n++ {
 			add(&Job{Name: fmt.Sprintf("O1-step/n=%d", n), Pkg: "roundrobin", Harness: "VerifC01Step", Params: p("n", n), Inductive: true, TimeoutS: 120, Unwind: 2*n + 3,
 				Bounds: fmt.Sprintf("one nextServer from an arbitrary iterator state: n=%d, weights symbolic in [0,2^31) not all zero, index in [-1,n), 0<=currentWeight<=max, step g symbolic >= 1 (stub of weightGcd); loop needs at most 2n+1 iterations (unwinding bound)", n)})
 		}
 		for n := 1; n <= nmax; n++ {
-			add(&Job{Name: fmt.Sprintf("O2-window/n=%d,wmax=%d", n, wmax), Pkg: "roundrobin", Harness: "VerifC01Window",
-				Params: p("n", n, "wmax", wmax), Unwind: 2*n*wmax + 8, IncKind: "cvc5",
-				Bounds: fmt.Sprintf("n=%d servers, weights symbolic in [0,%d] not all zero, every window offset k0 in [0,W), window length W=sum/gcd", n, wmax)})
+			parts := []int{-1}
+			if n >= 3 {
+				parts = nil
+				for v := 0; v <= wmax; v++ {
+					parts = append(parts, v)
+				}
+			}
+			for _, part := range parts {
+				add(&Job{Name: fmt.Sprintf("O2-window/n=%d,wmax=%d,w0=%d", n, wmax, part), Pkg: "roundrobin", Harness: "VerifC01Window",
+					Params: p("n", n, "wmax", wmax, "part", part), Unwind: 2*n*wmax + 8, IncKind: "cvc5",
+					Bounds: fmt.Sprintf("n=%d servers, weights symbolic in [0,%d] not all zero (w0 fixed per job when >= 0), every window offset k0 in [0,W), window length W=sum/gcd", n, wmax)})
+			}
 		}
 	case "C03", "C13":
 		tpts := []int{1, 333333333, 1000000000}
